@@ -1035,6 +1035,47 @@ def builder_units():
                   {"find": "let mut member_idx = 0;", "replace": "let mut member_idx: usize = 0;", "why": "integer type made explicit (only compared with 0 and incremented)"},
                   {"find": "            chain.append_member(action_expr);", "replace": "            proof { lemma_member_ok(action_group, action_expr); }\n            chain.append_member(action_expr);", "why": "R7 proof annotation (lemma call, no executable change)"}]),
     ], self_ty="ActionExprChainBuilder", trait="ParseChain", header="impl<'a> ActionExprChainBuilder<'a>"))
+    # ---- `<JoinInputDefault as Parse>::parse`, the statements from the branch / handler loop on (R15 statement lifting; the
+    # option loop in front of it is dropped and stays with engine R's exhaustive `options` family): every branch the
+    # macro keeps is one `build_from_parse_stream` accepted, at least one branch, the option fields are not touched
+    u.append(ty(F_JMOD, "JoinInputDefault"))
+    u.append(raw("specs_parse_branches", """
+impl Handler {
+    /// opaque (syn-driven)
+    #[verifier::external_body]
+    pub fn peek_handler(input: ParseStream<'_>) -> (r: bool) { unimplemented!() }
+    /// opaque here (syn-driven); its keyword -> variant mapping is verified in module `handler`
+    #[verifier::external_body]
+    pub fn try_from(input: ParseStream<'_>) -> (r: syn::Result<Handler>) { unimplemented!() }
+}
+
+/// what `build_from_parse_stream` guarantees about a chain it accepted
+pub open spec fn chain_ok(c: ActionExprChain) -> bool {
+    balanced(groups_of(c.members@), c.members@.len() as int) && members_ok(c.members@)
+}
+pub open spec fn chains_ok(bs: Seq<ActionExprChain>) -> bool {
+    forall|b: int| 0 <= b < bs.len() ==> chain_ok(#[trigger] bs[b])
+}
+"""))
+    u.append({"kind": "lifted", "file": F_PARSE, "self_ty": "JoinInputDefault", "of_trait": "Parse", "func": "parse",
+              "stmts_from": "while !input.is_empty()", "header": "impl JoinInputDefault",
+              "sig": "parse_branches<'b, 'c>(input: ParseStream<'b>, mut join: JoinInputDefault, action_expr_chain_builder: ActionExprChainBuilder<'c>) -> syn::Result<JoinInputDefault>",
+              "spec": fn("parse_branches", "r", label="JoinInputDefault::parse_branches",
+                         attrs="#[verifier::exec_allows_no_decreases_clause]\n",
+                         requires=["chains_ok(join.branches@)"],
+                         ensures=["r is Ok ==> r->Ok_0.branches@.len() >= 1 && chains_ok(r->Ok_0.branches@)",
+                                  # frame: the branch / handler loop leaves the four options as the option loop set them
+                                  "r is Ok ==> r->Ok_0.futures_crate_path == join.futures_crate_path && r->Ok_0.custom_joiner == join.custom_joiner "
+                                  "&& r->Ok_0.transpose_results == join.transpose_results && r->Ok_0.lazy_branches == join.lazy_branches",
+                                  # a handler given before the loop is kept (a second one is an error)
+                                  "r is Ok && join.handler is Some ==> r->Ok_0.handler == join.handler"],
+                         loops={"0": {"invariant": [
+                             "chains_ok(join.branches@)",
+                             "join.futures_crate_path == join0.futures_crate_path && join.custom_joiner == join0.custom_joiner",
+                             "join.transpose_results == join0.transpose_results && join.lazy_branches == join0.lazy_branches",
+                             "join0.handler is Some ==> join.handler == join0.handler",
+                         ]}},
+                         proof_prologue="let ghost join0 = join;")})
     return u
 
 
@@ -1212,7 +1253,7 @@ OBLIGATIONS = {
             # in the async kinds the emitted method names get their documented meaning from the four extension traits the
             # expansion brings into scope (`use futures::{FutureExt, TryFutureExt, StreamExt, TryStreamExt}`)
             ("top", "JoinOutput::to_tokens")],
-    "C02": [("gen", "lemma_split_balance"), ("gen", "lemma_accepted_chain_never_underflows"), ("gen", "lemma_split_members"), ("gen", "lemma_accepted_branch"), ("builder", "lemma_member_ok"), ("gen", "JoinOutput::split_branch_steps"), ("gen", "JoinOutput::generate_step_branch"), ("parse", "ActionGroup::parse_stream"), ("parse", "parse_until_suffix"), ("parse", "lemma_wrapper_frame"), ("builder", "ActionExprChainBuilder::build_from_parse_stream"), ("gen", "JoinOutput::wrap_last_step_stream"), ("gen", "JoinOutput::process_step_action_expr"),
+    "C02": [("builder", "JoinInputDefault::parse_branches"), ("gen", "lemma_split_balance"), ("gen", "lemma_accepted_chain_never_underflows"), ("gen", "lemma_split_members"), ("gen", "lemma_accepted_branch"), ("builder", "lemma_member_ok"), ("gen", "JoinOutput::split_branch_steps"), ("gen", "JoinOutput::generate_step_branch"), ("parse", "ActionGroup::parse_stream"), ("parse", "parse_until_suffix"), ("parse", "lemma_wrapper_frame"), ("builder", "ActionExprChainBuilder::build_from_parse_stream"), ("gen", "JoinOutput::wrap_last_step_stream"), ("gen", "JoinOutput::process_step_action_expr"),
             ("gen", "lemma_step_toks1"), ("core", "Combinator::can_be_wrapper"), ("core", "ActionGroup::to_wrapper_action_expr"),
             ("core", "ProcessExpr::replace_inner_exprs"), ("core", "ErrExpr::replace_inner_exprs"),
             ("core", "InitialExpr::replace_inner_exprs"), ("core", "ActionExpr::replace_inner_exprs"),
@@ -1239,13 +1280,13 @@ OBLIGATIONS = {
     "C05": [("top", "generate_join"), ("top", "JoinOutput::new"), ("steps", "JoinOutput::join_steps"), ("steps", "lemma_join_comma"), ("steps", "lemma_count_take_step"), ("gen", "JoinOutput::generate_results_transposer"), ("parse", "parse_until_suffix"), ("parse", "ActionGroup::parse_stream"),
             ("core", "ActionGroup::to_wrapper_action_expr"), ("core", "ActionGroup::new"), ("core", "ExprGroup::application_type")],
     "C12": [("sep", "JoinOutput::separate_block_expr_process"), ("sep", "JoinOutput::separate_block_expr_err"), ("sep", "JoinOutput::separate_block_expr_initial"), ("sep", "lemma_sep_step"), ("steps", "JoinOutput::join_steps"), ("steps", "lemma_join_comma"), ("steps", "lemma_count_take_step"), ("builder", "ActionExprChainBuilder::build_from_parse_stream"), ("gen", "JoinOutput::branch_result_name"), ("gen", "JoinOutput::branch_result_pat")],
-    "C15": [("top", "generate_join"), ("top", "JoinOutput::new"), ("top", "JoinOutput::new_fields"), ("top", "lemma_new_fields"), ("steps", "JoinOutput::generate_steps"), ("gen", "lemma_split_balance"), ("gen", "lemma_accepted_chain_never_underflows"), ("gen", "lemma_split_members"), ("gen", "lemma_accepted_branch"), ("builder", "lemma_member_ok"), ("builder", "lemma_unwrap_only_from_unwrap"), ("gen", "JoinOutput::split_branch_steps"), ("gen", "JoinOutput::generate_step_branch"), ("parse", "parse_until_suffix"), ("builder", "ActionExprChainBuilder::build_from_parse_stream"), ("builder", "ActionExprChain::append_member"),
+    "C15": [("builder", "JoinInputDefault::parse_branches"), ("top", "generate_join"), ("top", "JoinOutput::new"), ("top", "JoinOutput::new_fields"), ("top", "lemma_new_fields"), ("steps", "JoinOutput::generate_steps"), ("gen", "lemma_split_balance"), ("gen", "lemma_accepted_chain_never_underflows"), ("gen", "lemma_split_members"), ("gen", "lemma_accepted_branch"), ("builder", "lemma_member_ok"), ("builder", "lemma_unwrap_only_from_unwrap"), ("gen", "JoinOutput::split_branch_steps"), ("gen", "JoinOutput::generate_step_branch"), ("parse", "parse_until_suffix"), ("builder", "ActionExprChainBuilder::build_from_parse_stream"), ("builder", "ActionExprChain::append_member"),
             ("builder", "lemma_append_facts"), ("builder", "lemma_balanced_depth"),
             ("gen", "JoinOutput::wrap_last_step_stream"), ("gen", "JoinOutput::process_step_action_expr"),
             ("gen", "JoinOutput::generate_def_and_step_streams"), ("gen", "JoinOutput::expand_process_expr"),
             ("core", "ProcessExpr::to_tokens")],
     "C14": [("parse", "parse_until_suffix"), ("det", "lemma_first_match_is_longest"), ("optable", "lemma_operator_tables")],
-    "C16": [("top", "generate_join"), ("top", "jo_into_token_stream"), ("top", "JoinInputDefault::futures_crate_path"), ("top", "JoinInputDefault::branches"), ("top", "JoinInputDefault::handler"), ("top", "JoinInputDefault::joiner"), ("top", "JoinInputDefault::transpose_results_option"), ("top", "JoinInputDefault::lazy_branches_option"), ("top", "JoinOutput::new"), ("gen", "JoinOutput::generate_handle"), ("gen", "JoinOutput::generate_step_branch"), ("steps", "JoinOutput::generate_step_tail"), ("guards", "new_init_lazy_branches"), ("guards", "new_init_transpose")],
+    "C16": [("builder", "JoinInputDefault::parse_branches"), ("top", "generate_join"), ("top", "jo_into_token_stream"), ("top", "JoinInputDefault::futures_crate_path"), ("top", "JoinInputDefault::branches"), ("top", "JoinInputDefault::handler"), ("top", "JoinInputDefault::joiner"), ("top", "JoinInputDefault::transpose_results_option"), ("top", "JoinInputDefault::lazy_branches_option"), ("top", "JoinOutput::new"), ("gen", "JoinOutput::generate_handle"), ("gen", "JoinOutput::generate_step_branch"), ("steps", "JoinOutput::generate_step_tail"), ("guards", "new_init_lazy_branches"), ("guards", "new_init_transpose")],
     "C17": [("sep", "is_block_expr"), ("sep", "JoinOutput::separate_block_expr_process"), ("sep", "JoinOutput::separate_block_expr_err"), ("sep", "JoinOutput::separate_block_expr_initial"), ("sep", "lemma_sep_step")] + [("names", "lemma_names_never_clash"), ("names", "lemma_names_table"), ("names", "lemma_name3_injective"), ("names", "lemma_name1_injective"), ("names", "lemma_distinguishable"), ("names", "lemma_names_strlits"), ("gen", "JoinOutput::generate_def_and_step_streams")] + [("core", n) for n in ['construct_var_name', 'construct_step_results_name', 'construct_result_name', 'construct_thread_builder_name', 'construct_inspect_fn_name', 'construct_spawn_tokio_fn_name', 'construct_results_name', 'construct_handler_name', 'construct_internal_value_name', 'construct_thread_builder_fn_name', 'construct_expr_wrapper_name']],
     "C20": [("core", n) for n in ['construct_var_name', 'construct_step_results_name', 'construct_result_name', 'construct_thread_builder_name', 'construct_inspect_fn_name', 'construct_spawn_tokio_fn_name', 'construct_results_name', 'construct_handler_name', 'construct_internal_value_name', 'construct_thread_builder_fn_name', 'construct_expr_wrapper_name']],
     "C10": [("sep", "JoinOutput::separate_block_expr_process"), ("sep", "JoinOutput::separate_block_expr_err"), ("sep", "JoinOutput::separate_block_expr_initial"), ("sep", "is_block_expr"), ("sep", "err_is_replaceable"), ("sep", "initial_is_replaceable"), ("sep", "lemma_sep_step"), ("sep", "lemma_defs_empty"), ("sep", "lemma_any_block_upto_step")] + [("core", "ProcessExpr::is_replaceable"), ("core", "ProcessExpr::replace_inner_exprs"), ("core", "ErrExpr::replace_inner_exprs"),
